@@ -140,6 +140,8 @@ class Item(object):
 
 class Timeline(object):
     def __init__(self, dicts, options=None, output_mode="svg"):
+        # options are optional; never write into the caller's dict
+        options = {} if options is None else dict(options)
         # update latex options
         latex_opts = {k: v for k, v in DEFAULT_OPTIONS["latex"].items()}
         if "latex" in options:
